@@ -83,7 +83,7 @@ impl Run {
                         self.key = Some(k);
                         o
                     }
-                    Err(e) => json!({"res": e, "minlen": 0, "slen": 0, "native": native}),
+                    Err(e) => json!({"res": allow(op, e), "minlen": 0, "slen": 0, "native": native}),
                 }
             }
             "k_sign" => {
